@@ -113,57 +113,76 @@ func Run(c *rt.Ctx, s *Spec) Stats {
 			st.Complete = false
 			break
 		}
-		jobs := make([]any, len(frontier))
-		for i, h := range frontier {
-			jobs[i] = Job{Spec: s.Name, Hist: h}
-		}
 		var next [][]string
 		newStates := 0
-		c.Pool.Map(jobs, func(i int, r rt.JobResult) {
-			h := frontier[i]
-			if r.Died {
-				c.Violate(s.Prop+"/worker-died/"+s.Name, fmt.Sprintf("the process died while executing history %v of scenario %s (a panic outside any recoverable goroutine?): %s", h, s.Name, tail(r.Stderr)), map[string]any{"spec": s.Name, "hist": h})
-				return
+		// the level is processed in chunks so that the soft budget is honoured inside a level too; a level that was cut
+		// short is NOT counted as completed
+		const chunk = 1500
+		cut := false
+		for lo := 0; lo < len(frontier); lo += chunk {
+			if lo > 0 && c.Expired() {
+				cut = true
+				break
 			}
-			var res Res
-			if err := json.Unmarshal(r.Out, &res); err != nil {
-				rt.HarnessError("bad worker result: %v", err)
+			hi := lo + chunk
+			if hi > len(frontier) {
+				hi = len(frontier)
 			}
-			if res.Err != "" {
-				rt.HarnessError("scenario %s history %v: %s", s.Name, h, res.Err)
+			part := frontier[lo:hi]
+			jobs := make([]any, len(part))
+			for i, h := range part {
+				jobs[i] = Job{Spec: s.Name, Hist: h}
 			}
-			st.Transitions++
-			for k, v := range res.Outcomes {
-				st.Outcomes[k] += v
-			}
-			for _, v := range res.V {
-				if v.Property == "HARNESS" {
-					rt.HarnessError("scenario %s history %v: %s", s.Name, h, v.What)
+			c.Pool.Map(jobs, func(i int, r rt.JobResult) {
+				h := part[i]
+				if r.Died {
+					c.Violate(s.Prop+"/worker-died/"+s.Name, fmt.Sprintf("the process died while executing history %v of scenario %s (a panic outside any recoverable goroutine?): %s", h, s.Name, tail(r.Stderr)), map[string]any{"spec": s.Name, "hist": h})
+					return
 				}
-				if !rt.HasProp(v.Property, s.Prop) {
-					c.Info(fmt.Sprintf("(outside %s) %s/%s: %s", s.Prop, v.Property, v.Key, v.What))
-					continue
+				var res Res
+				if err := json.Unmarshal(r.Out, &res); err != nil {
+					rt.HarnessError("bad worker result: %v", err)
 				}
-				c.Violate(s.Prop+"/"+v.Key, fmt.Sprintf("[%s] after history %v: %s", s.Name, h, v.What), map[string]any{"spec": s.Name, "hist": h})
-			}
-			if seen[res.Canon] {
-				return
-			}
-			seen[res.Canon] = true
-			newStates++
-			c.Distinct(s.Name + "|" + res.Canon)
-			if len(h) > 0 && len(h) <= 3 {
-				c.Sample(map[string]any{"scenario": s.Name, "history": h, "last": res.LastObs, "state": res.Canon})
-			}
-			if depth < s.Depth {
-				for _, op := range res.Next {
-					nh := append(append([]string{}, h...), op)
-					next = append(next, nh)
+				if res.Err != "" {
+					rt.HarnessError("scenario %s history %v: %s", s.Name, h, res.Err)
 				}
-			}
-		})
+				st.Transitions++
+				for k, v := range res.Outcomes {
+					st.Outcomes[k] += v
+				}
+				for _, v := range res.V {
+					if v.Property == "HARNESS" {
+						rt.HarnessError("scenario %s history %v: %s", s.Name, h, v.What)
+					}
+					if !rt.HasProp(v.Property, s.Prop) {
+						c.Info(fmt.Sprintf("(outside %s) %s/%s: %s", s.Prop, v.Property, v.Key, v.What))
+						continue
+					}
+					c.Violate(s.Prop+"/"+v.Key, fmt.Sprintf("[%s] after history %v: %s", s.Name, h, v.What), map[string]any{"spec": s.Name, "hist": h})
+				}
+				if seen[res.Canon] {
+					return
+				}
+				seen[res.Canon] = true
+				newStates++
+				c.Distinct(s.Name + "|" + res.Canon)
+				if len(h) > 0 && len(h) <= 3 {
+					c.Sample(map[string]any{"scenario": s.Name, "history": h, "last": res.LastObs, "state": res.Canon})
+				}
+				if depth < s.Depth {
+					for _, op := range res.Next {
+						nh := append(append([]string{}, h...), op)
+						next = append(next, nh)
+					}
+				}
+			})
+		}
 		st.PerDepth = append(st.PerDepth, newStates)
 		st.States += newStates
+		if cut {
+			st.Complete = false
+			break
+		}
 		st.MaxDepth = depth
 		sort.Slice(next, func(i, j int) bool { return strings.Join(next[i], ";") < strings.Join(next[j], ";") })
 		frontier = next
